@@ -1,9 +1,27 @@
 """Stream `faults` (C20): syntactically corrupted input files, as first and as second file, through the real
-command line.  A corruption is kept only if an independent parse of that format rejects it."""
-import base64, json, plistlib
+command line.  A corruption is kept only if an independent parse of that format rejects it (any exception of
+the reference parser = invalid; the filter does not know which classes graphtage catches).
+
+Seed documents (second audit, H2): besides four plain data documents in every text format there are RICH ones —
+  plist : typed elements <date> <data> <real> <integer> <true/> nested <dict>/<array>, as XML and as BINARY plist
+  xml   : XML declaration with encoding=, DOCTYPE with internal entities, namespaces, CDATA, comments, PIs; latin-1
+  json  : 30-digit integer, exponent floats, every escape, surrogate pairs, 40-deep nesting        (json5: + JSON5 syntax)
+  yaml  : anchors / aliases / merge keys, timestamps, !!binary, !!set, !!int / !!float tags, block scalars, directives
+Corruption operators: truncation / delimiter deletion + duplication / unbalanced prefixes / NUL / bad UTF-8 (as
+before) plus VALUE-LEVEL ones: the encoding name of an XML declaration, the text of <date>/<integer>/<real>/<data>,
+undefined entities, YAML timestamps / tagged scalars / aliases / merge keys, digit strings lengthened beyond the
+interpreter's int limit, random byte flips anywhere, and byte flips in the header, object table, offset table and
+trailer of binary plists.
+
+`record_raised` (used by harness/gentables.py on every run) feeds the same corruptions to the parser entry point
+each loader calls and records every exception class that comes out: that recording, united with the hand list, is
+the `raisable` table `GtModel.C20.handlers_cover` is checked against."""
+import base64, datetime, io, json, plistlib, re
 
 NAME = "faults"
 MODEL_READY = True
+
+KINDS = ["json", "json5", "yaml", "xml", "html", "plist"]
 
 DOCS = [
     {"a": [1, 2.5, True, "x<é>&"], "b": {"c": "d", "e": None}, "f": ""},
@@ -16,6 +34,70 @@ XML_DOCS = [
     '<?xml version="1.0"?>\n<root a="1" b="two"><child>text</child><child x="y"/><!-- c --><deep><er>é</er></deep></root>',
     '<html><head><title>T</title></head><body><p class="x">hi <b>there</b></p><br/></body></html>',
 ]
+
+# ---- rich seed documents ---------------------------------------------------------------------------------
+
+RICH_XML = [
+    ('<?xml version="1.0" encoding="UTF-8" standalone="yes"?>\n'
+     '<!DOCTYPE root [\n  <!ENTITY who "world">\n  <!ENTITY copy "&#169;">\n  <!ELEMENT root ANY>\n]>\n'
+     '<!-- leading comment -->\n'
+     '<root xmlns="http://example.org/ns" xmlns:x="http://example.org/x" x:attr="1" id="r&amp;d">\n'
+     '  <x:item n="1">hello &who; &copy; &#x41;&#66;</x:item>\n'
+     '  <![CDATA[ raw <b>text</b> & more ]]>\n'
+     '  <?target some instruction?>\n'
+     '  <empty/>\n'
+     '  <deep><er>é – ü</er></deep>\n'
+     '</root>\n<!-- trailing comment -->\n').encode("utf-8"),
+    "<?xml version='1.0' encoding='iso-8859-1'?>\n<a t='caf\xe9'><b>na\xefve</b><c/></a>".encode("latin-1"),
+    ('<?xml version="1.0" encoding="utf-8"?>\n<!DOCTYPE html>\n'
+     '<html xmlns="http://www.w3.org/1999/xhtml" lang="en"><head><title>T &amp; t</title>'
+     '<style><![CDATA[ p > b { color: red } ]]></style></head>\n'
+     '<body><!-- c --><p class="x">hi <b>there</b>&#160;you</p><br/><img src="a.png" alt=""/></body></html>').encode("utf-8"),
+]
+
+RICH_JSON = ('{"big": 123456789012345678901234567890, "f": [1.5e300, -2.25E-7, 0.0, -0], '
+             '"esc": "q\\" b\\\\ s\\/ \\b\\f\\n\\r\\t \\u00e9 \\ud83d\\ude00", "uni": "é→😀", "empty": [{}, [], ""], '
+             '"deep": ' + "[" * 40 + "7" + "]" * 40 + ', "t": true, "n": null, "neg": -17}').encode("utf-8")
+
+RICH_JSON5 = ("{\n  // comment\n  unquoted: 'single \\' quote', hex: 0x1F, plus: +5, dot: .5, tr: 5., inf: Infinity, nan: NaN,\n"
+              "  /* block */ multi: 'line \\\n continued', list: [1, 2, 3,], big: 123456789012345678901234567890,\n"
+              "  \"deep\": " + "[" * 25 + "7" + "]" * 25 + ",\n}\n").encode("utf-8")
+
+RICH_YAML = [
+    (b"%YAML 1.1\n---\n"
+     b"base: &base {a: 1, b: [x, y]}\n"
+     b"derived:\n  <<: *base\n  c: 3\n"
+     b"alias: *base\n"
+     b"n: !!int \"42\"\n"
+     b"f: !!float 1.5\n"
+     b"s: !!str 77\n"
+     b"big: 123456789012345678901234567890\n"
+     b"octal: 0o17\nhex: 0x1F\nsexa: 1:30\n"
+     b"multi: |\n  line1\n  line2\n"
+     b"folded: >-\n  a\n  b\n"
+     b"quoted: \"esc \\\" \\\\ \\n \\x41 \\u00e9\"\n"
+     b"single: 'it''s'\n"
+     b"? complex key\n: value\n"
+     b"seq:\n- 1\n- - nested\n  - {k: v}\n"
+     b"...\n"),
+    # typed scalars the YAML constructor converts itself (graphtage reports valid ones as "no node type": an error
+    # message; their corrupted forms make the constructor raise ValueError, not YAMLError)
+    (b"when: 2001-12-14t21:59:43.10-05:00\n"
+     b"day: 2002-12-14\n"
+     b"stamp: !!timestamp 2001-12-15 02:59:43\n"
+     b"bin: !!binary |\n  R0lGODlhDAAMAIQAAP//9/X17unp5WZmZgAAAOfn515eXvPz7Y6OjuDg4J+fnw==\n"
+     b"set: !!set {a, b}\n"
+     b"pairs: !!omap [a: 1, b: 2]\n"
+     b"count: !!int 17\n"),
+    b"- &x 1\n- *x\n- 2020-01-02\n- [a, &y {k: *x}, *y]\n- !!float .inf\n- ~\n",
+]
+
+
+def _rich_plist_obj():
+    dt = datetime.datetime(2020, 1, 2, 3, 4, 5)
+    return {"name": "x<é>&", "when": dt, "blob": b"\x00\x01binary\xff" * 3, "pi": 3.25, "n": 42, "big": 2 ** 40,
+            "neg": -7, "yes": True, "no": False,
+            "arr": [1, 2.5, "s", {"k": [dt, b"zz", [], {}]}], "dict": {"a": {"b": [], "c": "d"}}}
 
 
 def _plist_doc(d):
@@ -31,6 +113,7 @@ def _plist_doc(d):
 
 
 def _valid_docs():
+    """[(kind, bytes)]; the FIRST document of every kind is the plain one used as the good file of a case."""
     import yaml
     docs = []
     for d in DOCS:
@@ -43,11 +126,41 @@ def _valid_docs():
     for x in XML_DOCS:
         docs.append(("xml", x.encode()))
         docs.append(("html", x.encode()))
+    # rich documents
+    docs.append(("json", RICH_JSON))
+    docs.append(("json5", RICH_JSON))
+    docs.append(("json5", RICH_JSON5))
+    for y in RICH_YAML:
+        docs.append(("yaml", y))
+    for x in RICH_XML:
+        docs.append(("xml", x))
+        docs.append(("html", x))
+    rp = _rich_plist_obj()
+    docs.append(("plist", plistlib.dumps(rp, fmt=plistlib.FMT_XML)))
+    docs.append(("plist", plistlib.dumps(rp, fmt=plistlib.FMT_BINARY)))
+    docs.append(("plist", plistlib.dumps({"a": 1}, fmt=plistlib.FMT_BINARY)))
+    docs.append(("plist", plistlib.dumps(_plist_doc(DOCS[2]), fmt=plistlib.FMT_BINARY)))
+    # an XML plist that is ALSO a document with an explicit non-UTF-8 encoding and no DOCTYPE
+    docs.append(("plist", ("<?xml version='1.0' encoding='iso-8859-1'?>\n<plist version=\"1.0\"><dict><key>caf\xe9</key>"
+                           "<date>2021-06-07T08:09:10Z</date><key>r</key><real>1.5e3</real><key>i</key><integer>-12</integer>"
+                           "<key>d</key><data>AAEC</data><key>t</key><true/></dict></plist>").encode("latin-1")))
     return docs
 
 
-def rejects(kind, data):
-    """Independent syntactic validity check (True = invalid)."""
+# ---- parsers ---------------------------------------------------------------------------------------------
+
+def _qual(e):
+    c = type(e)
+    return c.__module__ + "." + c.__qualname__
+
+
+def ref_error(kind, data):
+    """Independent syntactic validity check: None = the reference parser accepts `data`, otherwise the qualified
+    class name of whatever it raised.  ANY exception counts as a rejection (nothing here depends on the classes
+    graphtage's loaders catch).  The reference parsers are deliberately not the entry points the loaders call
+    where the standard library offers a second one: pyexpat driven directly for XML/HTML (the loaders use
+    ElementTree), PyYAML's pure-Python SafeLoader (the loader uses libyaml's CLoader), `json.loads` on decoded
+    text; for plist and JSON5 there is only one implementation (`plistlib`, `json5`)."""
     try:
         if kind == "json":
             json.loads(data.decode("utf-8"))
@@ -56,19 +169,66 @@ def rejects(kind, data):
             json5.loads(data.decode("utf-8"))
         elif kind == "yaml":
             import yaml
-            list(yaml.load_all(data.decode("utf-8"), Loader=yaml.SafeLoader))
+            list(yaml.load_all(data, Loader=yaml.SafeLoader))
         elif kind in ("xml", "html"):
             from xml.parsers import expat
             p = expat.ParserCreate()
             p.Parse(data, True)
         elif kind == "plist":
             plistlib.loads(data)
-        return False
-    except Exception:
-        return True
+        else:
+            raise KeyError(kind)
+        return None
+    except Exception as e:  # noqa: any exception = invalid (MemoryError and RecursionError are Exceptions too)
+        return _qual(e)
 
 
-DELIMS = b'{}[]<>"\':,/'
+def rejects(kind, data):
+    """True = invalid according to the reference parser."""
+    return ref_error(kind, data) is not None
+
+
+def entry_error(kind, data):
+    """What the parser ENTRY POINT that graphtage's loader of `kind` calls raises on `data` (qualified class name,
+    None if it parses): json.load / json5.load on a text stream, yaml.load_all with the C loader if present,
+    ElementTree.parse, plistlib.load.  graphtage itself is not involved."""
+    try:
+        if kind == "json":
+            json.load(io.TextIOWrapper(io.BytesIO(data), encoding="utf-8"))
+        elif kind == "json5":
+            import json5
+            json5.load(io.TextIOWrapper(io.BytesIO(data), encoding="utf-8"))
+        elif kind == "yaml":
+            import yaml
+            list(yaml.load_all(io.BytesIO(data), Loader=getattr(yaml, "CLoader", yaml.Loader)))
+        elif kind in ("xml", "html"):
+            import xml.etree.ElementTree as ET
+            ET.parse(io.BytesIO(data))
+        elif kind == "plist":
+            # a REAL file, as the loader opens one: BufferedReader.read(n) allocates n bytes up front (MemoryError on
+            # an absurd size field of a binary plist), BytesIO.read(n) does not
+            import os, tempfile
+            fd, path = tempfile.mkstemp(prefix="gtverif_pl_")
+            try:
+                with os.fdopen(fd, "wb") as f:
+                    f.write(data)
+                with open(path, "rb") as f:
+                    plistlib.load(f)
+            finally:
+                os.unlink(path)
+        else:
+            raise KeyError(kind)
+        return None
+    except BaseException as e:  # noqa: MemoryError / RecursionError included
+        if isinstance(e, (KeyboardInterrupt, SystemExit)):
+            raise
+        return _qual(e)
+
+
+# ---- corruption operators --------------------------------------------------------------------------------
+
+DELIMS = b'{}[]<>"\':,/&;!?-*|'
+LONG = 5000          # digits: beyond sys.get_int_max_str_digits() (4300)
 
 
 # the error report must not depend on status / logging / output options
@@ -76,16 +236,23 @@ FLAGS = [[], [], ["--no-status"], ["--quiet"], ["--log-level", "CRITICAL"], ["--
          ["-e"], ["-d"], ["-j"], ["-k"], ["--debug"]]     # (--html always prints its page skeleton: not a diff, left out)
 
 
-def corruptions(rng, data, tier):
+def _sample(rng, xs, n):
+    xs = list(xs)
+    return xs if len(xs) <= n else rng.sample(xs, n)
+
+
+def structural(rng, data, tier):
+    """truncation / delimiter / nesting / byte-level corruptions (format-agnostic)"""
     n = len(data)
-    if tier == "thorough":
+    thorough = tier == "thorough"
+    if thorough:
         cuts = range(n)
     else:
         cuts = sorted(set(rng.sample(range(n), min(n, 10)) + [0, 1, n - 1, n // 2]))
     for i in cuts:
         yield "truncate@%d" % i, data[:i]
     idx = [i for i in range(n) if data[i] in DELIMS]
-    if tier != "thorough":
+    if not thorough:
         idx = rng.sample(idx, min(len(idx), 8))
     for i in idx:
         yield "delete@%d" % i, data[:i] + data[i + 1:]
@@ -98,20 +265,234 @@ def corruptions(rng, data, tier):
     yield "append-tag", data + b"<unclosed>"
     yield "nul", data[:n // 2] + b"\x00" + data[n // 2:]
     yield "badutf8", data[:n // 2] + b"\xff\xfe" + data[n // 2:]
+    # random byte flips (any position, any value)
+    for _ in range(n if thorough else 12):
+        i = rng.randrange(n)
+        b = rng.choice([0x00, 0x7f, 0x80, 0xff, rng.randrange(256), data[i] ^ (1 << rng.randrange(8))])
+        if b != data[i]:
+            yield "flip@%d=%02x" % (i, b), data[:i] + bytes([b]) + data[i + 1:]
+
+
+def _sub_all(rx, data, repls, label, rng, per=None):
+    """for every match of group 1 of `rx` in data and every replacement text: one corruption"""
+    ms = list(re.finditer(rx, data))
+    if per is not None:
+        ms = _sample(rng, ms, per)
+    for m in ms:
+        s, e = m.span(1)
+        for r in repls:
+            r = r(m.group(1)) if callable(r) else r
+            if r != m.group(1):
+                yield "%s@%d:%s" % (label, s, r[:12].decode("latin-1")), data[:s] + r + data[e:]
+
+
+ENC_NAMES = [b"uf-8", b"utf8x", b"bogus-encoding", b"", b"UTF-16", b"utf-32", b"shift_jis", b"ascii", b"cp037", b"latin-99", b"undefined", b"idna", b"base64"]
+DATE_TEXTS = [b"notadate", b"", b"2020-13-45T00:00:00Z", b"2020-01-02", b"2020-01-02T03:04:05", b"20200102T030405Z", b"0000-00-00T00:00:00Z",
+              b"2020-01-02T25:61:61Z", b"9" * 30, lambda t: t[:-1], lambda t: t + b"Z", lambda t: b" " + t]
+INT_TEXTS = [b"12x", b"", b"0x", b"--1", b"1.5", b"1e3", b"9" * LONG, b"-" + b"9" * LONG, b"0x" + b"f" * LONG, b"\xc3\xa9", b"1 2"]
+REAL_TEXTS = [b"abc", b"", b"1.2.3", b"1e", b"--1.5", b"0x1p3", b"1,5", b"\xc3\xa9"]
+DATA_TEXTS = [b"!!!", b"A", b"AAA", b"====", b"\xc3\xa9\xc3\xa9\xc3\xa9\xc3\xa9", b"AA=A"]
+
+
+def value_level(rng, kind, data, tier):
+    """corruptions of VALUES rather than of delimiters; every one of them is cheap, so all are kept in both tiers"""
+    per = None if tier == "thorough" else 3
+    if data[:6] == b"bplist":
+        yield from binary_plist(rng, data, tier)
+        return
+    # encoding name of an XML declaration (xml, html, XML plists)
+    if kind in ("xml", "html", "plist"):
+        yield from _sub_all(rb"<\?xml[^>]*?encoding=[\"']([^\"']*)[\"']", data, ENC_NAMES, "enc", rng)
+        if not re.match(rb"\s*<\?xml", data):
+            for nm in ENC_NAMES[:4]:
+                yield "enc-add:" + nm.decode(), b'<?xml version="1.0" encoding="' + nm + b'"?>' + data
+        yield from _sub_all(rb"<\?xml[^>]*?version=[\"']([^\"']*)[\"']", data, [b"2.0", b"", b"1.x"], "xmlver", rng)
+        yield from _sub_all(rb"&(\w+);", data, [b"nope", b"", b"#xZZ", b"#99999999999"], "entity", rng, per)
+        yield from _sub_all(rb"&#(x?[0-9A-Fa-f]+);", data, [b"0", b"x0", b"xD800", b"1114112", b"9" * 40], "charref", rng, per)
+        yield from _sub_all(rb"(\]\]>)", data, [b"", b"]>"], "cdata-end", rng, per)
+        yield from _sub_all(rb"(-->)", data, [b"", b"--->", b"->"], "comment-end", rng, per)
+        yield from _sub_all(rb"<!--( )", data, [b"--"], "comment-dd", rng, per)
+        yield from _sub_all(rb"xmlns:(\w+)=", data, [b"zz"], "ns-prefix", rng, per)
+        yield from _sub_all(rb"(<!DOCTYPE)", data, [b"<!DOCTYP", b"<!doctype"], "doctype", rng, per)
+    if kind == "plist":
+        yield from _sub_all(rb"<date>([^<]*)</date>", data, DATE_TEXTS, "date", rng, per)
+        yield from _sub_all(rb"<integer>([^<]*)</integer>", data, INT_TEXTS, "integer", rng, per)
+        yield from _sub_all(rb"<real>([^<]*)</real>", data, REAL_TEXTS, "real", rng, per)
+        yield from _sub_all(rb"<data>([^<]*)</data>", data, DATA_TEXTS, "data", rng, per)
+        yield from _sub_all(rb"<(true|false)/>", data, [b"maybe", b"date", b"integer"], "bool-tag", rng, per)
+        yield from _sub_all(rb"<(key)>", data, [b"integer", b"date", b"array"], "key-tag", rng, per)
+        yield from _sub_all(rb"<(dict|array|string)>", data, [b"date", b"integer", b"real", b"data", b"true", b"plist"], "tag", rng, per)
+    if kind == "yaml":
+        yield from _sub_all(rb"(\d{4}-\d\d-\d\d)", data, [lambda t: t[:5] + b"13" + t[7:], lambda t: t[:8] + b"45", b"0000-00-00", lambda t: t[:5] + b"02-30"], "ts-date", rng, per)
+        yield from _sub_all(rb"\d{4}-\d\d-\d\d[tT ](\d\d:\d\d:\d\d)", data, [b"25:00:00", b"23:61:00", b"23:59:61"], "ts-time", rng, per)
+        yield from _sub_all(rb"\d\d:\d\d:\d\d(?:\.\d+)?([-+]\d\d:\d\d)", data, [b"+99:99", b"-25:00"], "ts-zone", rng, per)
+        yield from _sub_all(rb"!!int \"?([^\"\n]*)\"?", data, [b"xyz", b"4x2", b"0o9", b"0x", b"1__", b"", b"9" * LONG], "tag-int", rng, per)
+        yield from _sub_all(rb"!!float \"?([^\"\n]*)\"?", data, [b"abc", b"1.2.3", b"--1", b""], "tag-float", rng, per)
+        yield from _sub_all(rb"!!(int|float|str|set|omap|binary|timestamp)\b", data, [b"nosuchtag", b"python/name:os.system", b"bool", b"null", b"int", b"float", b"timestamp", b"binary", b"set", b"omap", b"pairs", b"seq", b"map"], "tag", rng, per)
+        yield from _sub_all(rb"!!binary \|\n +([^\n]*)", data, [b"!!!", b"A", b"\xc3\xa9\xc3\xa9"], "binary", rng, per)
+        yield from _sub_all(rb"\*(\w+)", data, [b"undefined"], "alias", rng, per)
+        yield from _sub_all(rb"<<: (\*\w+)", data, [b"5", b"[1, 2]", b"[*base, 3]", b"abc"], "merge", rng, per)
+        yield from _sub_all(rb"%YAML (1\.1)", data, [b"9.9", b"x"], "directive", rng, per)
+        yield from _sub_all(rb"\\(x41)", data, [b"xZZ", b"q", b"U0011FFFF"], "escape", rng, per)
+    if kind in ("json", "json5"):
+        yield from _sub_all(rb"\\(u[0-9a-fA-F]{4})", data, [b"u12", b"uZZZZ", b"x", b"U0001F600"], "escape", rng, per)
+        yield from _sub_all(rb"(?<![\w.])(-?\d+\.?\d*[eE][-+]?\d+)", data, [b"1e", b"1e+", b"1.e5", b"01.5e3", b"1e99999x"], "float", rng, per)
+        yield from _sub_all(rb"(true|null)", data, [b"tru", b"True", b"nul", b"None", b"undefined"], "literal", rng, per)
+        yield from _sub_all(rb"(0x1F|Infinity|NaN)", data, [b"0x", b"0xG", b"Infinit", b"-+5", b"Na"], "json5-num", rng, per)
+    # digit strings lengthened beyond what int() converts (every format with integers written as text)
+    runs = [m for m in re.finditer(rb"(?<![\w.\\#&+-])(\d+)(?![\w.:-])", data)]
+    for m in _sample(rng, runs, 4 if per else len(runs)):
+        s, e = m.span(1)
+        yield "digits@%d" % s, data[:s] + m.group(1) + b"0" * LONG + data[e:]
+        yield "digits-neg@%d" % s, data[:s] + b"-" + m.group(1) + b"7" * LONG + data[e:]
+
+
+def binary_plist(rng, data, tier):
+    """byte flips in a binary plist: header, object table, offset table, trailer (the last 32 bytes)"""
+    import struct
+    n = len(data)
+    thorough = tier == "thorough"
+    try:
+        off_size, ref_size, num, top, off_table = struct.unpack(">6xBBQQQ", data[-32:])
+    except struct.error:
+        off_size, ref_size, num, top, off_table = 1, 1, 0, 0, max(8, n - 32)
+    off_table = min(max(off_table, 8), n - 32)
+    regions = [("hdr", range(0, 8)), ("obj", range(8, off_table)), ("off", range(off_table, n - 32)), ("trl", range(n - 32, n))]
+    vals = [0x00, 0x01, 0x0f, 0x10, 0x1f, 0x33, 0x4f, 0x5f, 0x6f, 0x7f, 0x80, 0x8f, 0xa1, 0xaf, 0xd1, 0xdf, 0xef, 0xff]
+    for name, rg in regions:
+        pos = list(rg)
+        if not pos:
+            continue
+        if thorough:
+            pairs = [(i, v) for i in pos for v in vals] if len(pos) <= 64 else [(rng.choice(pos), rng.choice(vals + [rng.randrange(256)])) for _ in range(1500)]
+        else:
+            k = {"hdr": 4, "obj": 40, "off": 14, "trl": 26}[name]
+            pairs = [(rng.choice(pos), rng.choice(vals + [rng.randrange(256)])) for _ in range(k)]
+        for i, v in pairs:
+            if data[i] != v:
+                yield "bin-%s@%d=%02x" % (name, i, v), data[:i] + bytes([v]) + data[i + 1:]
+    # two flips at once (a size marker AND an offset), truncations of the trailer, trailing garbage
+    for _ in range(200 if thorough else 20):
+        i, j = rng.randrange(8, n), rng.randrange(8, n)
+        b = bytearray(data)
+        b[i] = rng.choice(vals)
+        b[j] = rng.randrange(256)
+        if bytes(b) != data:
+            yield "bin-2@%d,%d" % (i, j), bytes(b)
+    for cut in (1, 8, 16, 31, 32, 33):
+        yield "bin-cut-%d" % cut, data[:-cut]
+    yield "bin-pad", data + b"\x00" * 7
+    yield "bin-magic", b"bplist99" + data[8:]
+
+
+def corruptions(rng, kind, data, tier):
+    """(label, corrupted bytes, is_value_level)"""
+    for label, bad in structural(rng, data, tier):
+        yield label, bad, False
+    for label, bad in value_level(rng, kind, data, tier):
+        yield label, bad, True
+
+
+QUICK_STRUCTURAL = 260      # sampled delimiter/truncation cases in the quick tier (the value-level ones are all kept,
+QUICK_VALUE = 640           # up to this many)
 
 
 def gen(rng, tier):
-    cases = []
+    structural_cases, value_cases = [], []
     valid = _valid_docs()
+    seen = set()
     for kind, data in valid:
         good = [d for k, d in valid if k == kind][0]
-        for label, bad in corruptions(rng, data, tier):
-            if bad == data or not rejects(kind, bad):
+        for label, bad, is_value in corruptions(rng, kind, data, tier):
+            if bad == data or (kind, bad) in seen:
                 continue
-            cases.append({"kind": kind, "label": label, "flags": rng.choice(FLAGS),
-                          "bad": base64.b64encode(bad).decode(), "good": base64.b64encode(good).decode()})
-    if tier == "quick" and len(cases) > 260:
-        cases = rng.sample(cases, 260)
+            seen.add((kind, bad))
+            if not rejects(kind, bad):
+                continue
+            c = {"kind": kind, "label": label, "flags": rng.choice(FLAGS),
+                 "bad": base64.b64encode(bad).decode(), "good": base64.b64encode(good).decode()}
+            (value_cases if is_value else structural_cases).append(c)
+    if tier == "quick":
+        if len(structural_cases) > QUICK_STRUCTURAL:
+            structural_cases = rng.sample(structural_cases, QUICK_STRUCTURAL)
+        if len(value_cases) > QUICK_VALUE:
+            # keep every (kind, operator) class represented: round-robin over the classes
+            by = {}
+            for c in value_cases:
+                by.setdefault((c["kind"], c["label"].split("@")[0].split(":")[0]), []).append(c)
+            for v in by.values():
+                rng.shuffle(v)
+            picked = []
+            while len(picked) < QUICK_VALUE:
+                progressed = False
+                for k in sorted(by):
+                    if by[k] and len(picked) < QUICK_VALUE:
+                        picked.append(by[k].pop())
+                        progressed = True
+                if not progressed:
+                    break
+            value_cases = picked
+    return structural_cases + value_cases
+
+
+# ---- recorded fuzz of the parser entry points (harness/gentables.py, on every run) -----------------------
+
+def record_raised(seed, kinds=None, per_kind=3000, deadline_s=10.0, tier="quick"):
+    """{kind: {qualified exception class: number of corrupted files on which the loader's parser entry point raised
+    it}} over seeded corruptions of the seed documents; only files the independent reference parser REJECTS are
+    counted (the property's domain).  Bounded by `per_kind` files and `deadline_s` seconds per kind.  For every class the
+    shortest file that raised it is kept ("examples"): the C20 check runs each through the real command line."""
+    import random, time
+    out = {}
+    valid = _valid_docs()
+    for kind in (kinds or KINDS):
+        rng = random.Random("raised/%s/%s" % (kind, seed))
+        t_end = time.time() + deadline_s
+        seen = {}
+        examples = {}
+        tried = rejected = 0
+        docs = [d for k, d in valid if k == kind]
+        rounds = 0
+        done = False
+        dedup = set()
+        while not done and rounds < 50:
+            rounds += 1
+            for data in docs:
+                for label, bad, _ in corruptions(rng, kind, data, tier):
+                    if bad == data or bad in dedup:
+                        continue
+                    dedup.add(bad)
+                    if len(bad) > 3 * len(data) + 3 * LONG and not label.startswith("deep"):
+                        continue
+                    tried += 1
+                    if ref_error(kind, bad) is not None:
+                        rejected += 1
+                        e = entry_error(kind, bad)
+                        if e is not None:
+                            seen[e] = seen.get(e, 0) + 1
+                            if e not in examples or len(bad) < len(examples[e][1]):
+                                examples[e] = (label, bad)
+                    if tried >= per_kind or time.time() > t_end:
+                        done = True
+                        break
+                if done:
+                    break
+        out[kind] = {"classes": dict(sorted(seen.items())), "tried": tried, "rejected": rejected,
+                     "examples": {c: {"label": l, "bad": base64.b64encode(b).decode()} for c, (l, b) in sorted(examples.items())}}
+    return out
+
+
+# ---- implementation side ---------------------------------------------------------------------------------
+
+def witness_cases(recorded):
+    """one faults case per (type, exception class) the recorded fuzz saw: the shortest file that raised it"""
+    valid = _valid_docs()
+    cases = []
+    for kind, r in sorted(recorded.items()):
+        good = [d for k, d in valid if k == kind][0]
+        for cls, ex in sorted((r.get("examples") or {}).items()):
+            cases.append({"kind": kind, "label": "recorded:%s:%s" % (cls.rsplit(".", 1)[-1], ex["label"]), "flags": [],
+                          "bad": ex["bad"], "good": base64.b64encode(good).decode()})
     return cases
 
 
@@ -130,17 +511,15 @@ def impl(case):
 
 def _names_file(err, name):
     """an ERROR message naming the file (the progress bar's 'Loading bad.json' line does not count)"""
-    import re
     return re.search(r"Error[^\r\n]*" + re.escape(name), err) is not None
-
-
-def _exc_class(case, r):
-    return r.get("exc") or "none"
 
 
 def monitor(case, obs):
     hits = []
     if not isinstance(obs, dict) or obs.get("error"):
+        if isinstance(obs, dict) and obs.get("exc") in ("MemoryError", "RecursionError"):
+            return [{"prop": "C20", "key": f"uncaught:{case['kind']}:{obs['exc']}",
+                     "what": f"malformed {case['kind']} file ({case['label']}): {obs['exc']} escaped the command line: {obs.get('msg')}"}]
         return [{"prop": "C20", "key": "harness-error", "what": repr(obs)[:300]}]
     for pos, r in zip(("first", "second"), obs["runs"]):
         k = case["kind"]
@@ -173,7 +552,8 @@ def expect(case, obs):
 
 
 def classify(case, obs):
-    return case["kind"] + ":" + case["label"].split("@")[0] + ":" + ("".join(case.get("flags", [])) or "noflags")
+    lab = case["label"].split("@")[0].split(":")[0]
+    return case["kind"] + ":" + lab
 
 
 def nontrivial(case, obs):
@@ -181,4 +561,32 @@ def nontrivial(case, obs):
 
 
 def shrink(case):
-    return []
+    """smaller files that the reference parser still rejects: drop the option flags, cut line blocks (halves, quarters,
+    single lines), cut long digit runs down to just over the int limit; the engine keeps a candidate only if the
+    monitor reports the same key for it"""
+    bad = base64.b64decode(case["bad"])
+    kind = case["kind"]
+    out = []
+
+    def add(b, label=None, **kw):
+        if b != bad and len(b) <= len(bad) and rejects(kind, b):
+            out.append(dict(case, bad=base64.b64encode(b).decode(), **kw))
+    if case.get("flags"):
+        out.append(dict(case, flags=[]))
+    if bad[:6] == b"bplist":
+        return out
+    lines = bad.split(b"\n")
+    n = len(lines)
+    if n > 1:
+        step = n // 2
+        while step >= 1 and len(out) < 30:
+            for i in range(0, n, step):
+                add(b"\n".join(lines[:i] + lines[i + step:]))
+            step //= 2
+    else:
+        m = len(bad)
+        for a, b in ((0, m // 2), (m // 2, m), (0, m // 4), (3 * m // 4, m)):
+            add(bad[:a] + bad[b:])
+    for mt in re.finditer(rb"[0-9]{%d,}" % (LONG // 2), bad):
+        add(bad[:mt.start()] + b"1" * 4301 + bad[mt.end():])
+    return out[:32]
